@@ -379,9 +379,21 @@ def _dedup_bindings(bindings):
     return list(d.items())
 
 
+def _has_xsd_string(stmts) -> bool:
+    def walk(t):
+        if isinstance(t, Literal):
+            return t._datatype == gen.XSD + "string"
+        if isinstance(t, Triple):
+            return any(walk(x) for x in t)
+        return False
+    return any(walk(t) for st in stmts for t in st)
+
+
 def check_C19(ctx: Ctx) -> None:
     r = ctx.rng("ser")
-    cases = _ser_cases(ctx, r, ctx.n(500, 5000), ns=True)
+    # Python == distinguishes "a"^^xsd:string from the plain "a" while the format (and the referee) identify them;
+    # the contract "omit a term equal to the previous one" is audited on inputs where the two notions coincide
+    cases = [c for c in _ser_cases(ctx, r, ctx.n(600, 6000), ns=True) if not _has_xsd_string(c["stmts"])]
     ctx.corr("SER", [c["req"] for c in cases], [c["resp"] for c in cases])
     reqs, todo = [], []
     for c in cases:
@@ -1634,7 +1646,7 @@ def check_C02(ctx: Ctx) -> None:
             o.lt = {"T": 1, "Q": 2, "G": 2}[cls]
         stmts = _rdf11_statements(r, data_cls, o, r.randint(0, 14))
         store = _to_store(stmts, data_cls)
-        want = sorted(_norm_text(t) for t in rimpl.store_quads(store))
+        want = sorted(set(_norm_text(t) for t in rimpl.store_quads(store)))
         req, line, b = rimpl.run_serr(cls, o, store)
         reqs.append(req)
         resp.append(line)
@@ -1666,7 +1678,7 @@ def check_C02(ctx: Ctx) -> None:
             except Exception as e:  # noqa: BLE001
                 ctx.fail(f"rdflib round trip ({how}) raised {type(e).__name__}: {e}", dict(request=req))
                 continue
-            got = sorted(_norm_text(t) for t in rimpl.store_quads(back))
+            got = sorted(set(_norm_text(t) for t in rimpl.store_quads(back)))
             if got != want:
                 ctx.fail(f"rdflib round trip ({how}) changed the data", dict(request=req, got=got[:20], want=want[:20]))
     ctx.corr("SER-rdflib", reqs, resp)
